@@ -43,3 +43,26 @@ Example C05_regression :
   = Ok (Node [] (L"abcdef") [] 0 6 [Node (L"t2") (L"bc") [] 1 3 [Node (L"t0") (L"D0") [] 0 1 []]]).
 Proof. vm_compute. reflexivity. Qed.
 Print Assumptions C05_regression.
+
+(* BEGIN shipped-registry instances *)
+(* THE SHIPPED SCANNER (Proofs/DefaultEngine.v): the theorems above hold for any registry with in-bounds hits; these are the same statements about the model of Multidecoder().scan itself - the regenerated registry of all 30 decoders and the keyword searchers (scan_default), the registry with find_powershell_strings replaced by any conforming decoder ps (scan_default_with ... ps; F6 is the reason it does not conform itself), and the registry with the shell module excluded (scan_noshell) - for every input, depth limit, keyword directory and tool oracle (pe_size non-negative). *)
+From MD Require Import Model.EngineR Model.Default Model.Flatten Proofs.DefaultWf Proofs.DefaultEngine Proofs.ChainProofs.
+
+Theorem C05_shipped_laminar : forall pe_size : Base.bytes -> BinNums.Z, (forall b : Base.bytes, BinInt.Z.le BinNums.Z0 (pe_size b)) -> forall (xortool : Base.bytes -> list Base.bytes) (extra : Base.label -> option (Base.bytes -> Base.res (list Node.node))) (ps : Base.bytes -> Base.res (list Node.node)) (kwdir : Registry.dtree) (depth : BinNums.Z) (data : Base.bytes) (t : Node.node) (l1 : list Node.node) (c1 : Node.node) (l2 : list Node.node) (c2 : Node.node) (l3 : list Node.node), strong_ok ps -> BinInt.Z.lt BinNums.Z0 depth -> scan_default_with pe_size xortool extra ps kwdir depth data = Base.Ok t -> Node.n_kids t = (l1 ++ c1 :: l2 ++ c2 :: l3)%list -> BinInt.Z.le (Node.n_st c1) (Node.n_st c2) /\ BinInt.Z.lt (Node.n_en c1) (Node.n_en c2).
+Proof. exact default_scan_laminar. Qed.
+Print Assumptions C05_shipped_laminar.
+
+Theorem C05_shipped_node_laminar : forall pe_size : Base.bytes -> BinNums.Z, (forall b : Base.bytes, BinInt.Z.le BinNums.Z0 (pe_size b)) -> forall (xortool : Base.bytes -> list Base.bytes) (extra : Base.label -> option (Base.bytes -> Base.res (list Node.node))) (ps : Base.bytes -> Base.res (list Node.node)) (kwdir : Registry.dtree) (d : nat) (n t : Node.node) (l1 : list Node.node) (c1 : Node.node) (l2 : list Node.node) (c2 : Node.node) (l3 : list Node.node), strong_ok ps -> Node.n_kids n = nil -> scan_node_r (search_default_with pe_size xortool extra ps kwdir) (S d) n = Base.Ok t -> Node.n_kids t = (l1 ++ c1 :: l2 ++ c2 :: l3)%list -> BinInt.Z.le (Node.n_st c1) (Node.n_st c2) /\ BinInt.Z.lt (Node.n_en c1) (Node.n_en c2).
+Proof. exact default_scan_node_laminar. Qed.
+Print Assumptions C05_shipped_node_laminar.
+
+(* suppression inside decoded regions = the reference procedure *)
+Theorem C05_shipped_is_reference : forall pe_size : Base.bytes -> BinNums.Z, (forall b : Base.bytes, BinInt.Z.le BinNums.Z0 (pe_size b)) -> forall (xortool : Base.bytes -> list Base.bytes) (extra : Base.label -> option (Base.bytes -> Base.res (list Node.node))) (ps : Base.bytes -> Base.res (list Node.node)) (kwdir : Registry.dtree) (depth : BinNums.Z) (data : Base.bytes) (t : Node.node), strong_ok ps -> scan_default_with pe_size xortool extra ps kwdir depth data = Base.Ok t -> EngineRefine.map_res Reference.erase (Reference.ref_scan (search_of (search_default_with pe_size xortool extra ps kwdir)) depth data) = Base.Ok t /\ Engine.scan (search_of (search_default_with pe_size xortool extra ps kwdir)) depth data = Base.Ok t.
+Proof. exact default_scan_refines_reference. Qed.
+Print Assumptions C05_shipped_is_reference.
+
+Theorem C05_noshell_laminar : forall pe_size : Base.bytes -> BinNums.Z, (forall b : Base.bytes, BinInt.Z.le BinNums.Z0 (pe_size b)) -> forall (xortool : Base.bytes -> list Base.bytes) (extra : Base.label -> option (Base.bytes -> Base.res (list Node.node))) (kwdir : Registry.dtree) (depth : BinNums.Z) (data : Base.bytes) (t : Node.node) (l1 : list Node.node) (c1 : Node.node) (l2 : list Node.node) (c2 : Node.node) (l3 : list Node.node), BinInt.Z.lt BinNums.Z0 depth -> scan_noshell pe_size xortool extra kwdir depth data = Base.Ok t -> Node.n_kids t = (l1 ++ c1 :: l2 ++ c2 :: l3)%list -> BinInt.Z.le (Node.n_st c1) (Node.n_st c2) /\ BinInt.Z.lt (Node.n_en c1) (Node.n_en c2).
+Proof. exact noshell_scan_laminar. Qed.
+Print Assumptions C05_noshell_laminar.
+
+(* END shipped-registry instances *)
